@@ -11,7 +11,7 @@ import ast
 
 from .. import flow
 from .. import terms as T
-from ..asyncflow import AsyncView, rule_queue_discipline, rule_thread_affinity, rule_wallclock
+from ..asyncflow import AsyncView, rule_gates, rule_queue_discipline, rule_task_private_state, rule_thread_affinity, rule_wallclock
 from ..asyncrt import CONN, GRAPH, NODE, mentions, queue_ops
 from ..report import Check
 from .c03 import _sampler, rule_future_guard
@@ -147,6 +147,21 @@ def run(chk: Check, model):
         chk.used(view.fi(k.rsplit(".", 1)[0] if k.count(".") == 2 else k).qualname)
     rule_thread_affinity(chk, view, "C02.affinity")
     rule_queue_discipline(chk, view, "C02.queues")
+    chk.rule("C02.handoff", "values travel between task functions only through the event queues: a scalar attribute mutated by one task function is neither read nor "
+                            "written by another; _submit accepts a task in exactly the reference states (nothing submitted during start-up is dropped)")
+    rule_task_private_state(chk, view, "C02.handoff")
+    rule_gates(chk, view, "C02.handoff")
+    # the value queued for a blocking step is a function of the popped arrival times only
+    from .c04 import _max0_of_pops
+    from ..asyncrt import one, popped, queue_ops
+    rtm = view.results["conn.push_ts_max"]
+    try:
+        n_exp = popped(rtm, "q_expected_ts_max")
+        ap = one(queue_ops(rtm, "q_ts_max", "append"), "append on q_ts_max")
+        chk.add("C02.handoff", "push_ts_max: awaited arrival = max(0, the popped receive times)", _max0_of_pops(ap.args[0], n_exp, rtm, ap.guard),
+                f"q_ts_max gets {T.show(ap.args[0])[:200]}, expected the maximum over exactly the receive times popped for this step", chk.loc(view.fi("conn.push_ts_max"), ap.node))
+    except Exception as ex:  # noqa: BLE001 - reported, not swallowed
+        chk.unknown("C02.handoff", "push_ts_max", str(ex), chk.loc(view.fi("conn.push_ts_max")))
     rule_wallclock(chk, view, "C02.wallclock")
     chk.rule("C02.future", "join guard of the non-blocking selector: it waits until a receive time strictly after the step start is queued, so its "
                            "result depends on queue contents, not on which trigger ran last")
